@@ -1,6 +1,681 @@
 /- The ISO-8601 matcher against the rendering grammar. -/
 import SigV4.Spec.TimeSpec
+import SigV4.Model.Auth
 
 namespace SigV4
 
+namespace IsoMatch
+
+/-! ### Bytes -/
+
+theorem u8_forall {P : UInt8 → Prop} (h : ∀ n : Fin 256, P (UInt8.ofNat n.val)) : ∀ c, P c := by
+  intro c
+  have := h ⟨c.toNat, c.toNat_lt⟩
+  simpa using this
+
+/-- The digit byte of a natural number's last decimal digit. -/
+def dB (k : Nat) : UInt8 := UInt8.ofNat (48 + k % 10)
+
+theorem digitByte_nat (k : Nat) : digitByte (k : Int) = dB k := by
+  unfold digitByte dB
+  congr 2 <;> omega
+
+theorem natPad2_eq (n : Nat) : natPad2 n = [dB (n / 10), dB n] := by
+  unfold natPad2 pad2
+  rw [← digitByte_nat, ← digitByte_nat]
+  simp
+
+theorem natPad4_eq (n : Nat) : natPad4 n = [dB (n / 1000), dB (n / 100), dB (n / 10), dB n] := by
+  unfold natPad4 pad4
+  rw [← digitByte_nat, ← digitByte_nat, ← digitByte_nat, ← digitByte_nat]
+  simp
+
+theorem fin10_digit : ∀ d : Fin 10, isDigit (UInt8.ofNat (48 + d.val)) = true ∧
+    digitVal (UInt8.ofNat (48 + d.val)) = d.val := by decide
+
+theorem isDigit_dB (k : Nat) : isDigit (dB k) = true :=
+  (fin10_digit ⟨k % 10, Nat.mod_lt _ (by decide)⟩).1
+
+theorem digitVal_dB (k : Nat) : digitVal (dB k) = k % 10 :=
+  (fin10_digit ⟨k % 10, Nat.mod_lt _ (by decide)⟩).2
+
+set_option maxRecDepth 100000 in
+theorem digit_canon : ∀ c : UInt8, isDigit c = true →
+    digitVal c < 10 ∧ c = UInt8.ofNat (48 + digitVal c) := by
+  apply u8_forall
+  decide
+
+theorem digit_eq_dB (c : UInt8) (h : isDigit c = true) (k : Nat) (hk : k % 10 = digitVal c) :
+    c = dB k := by
+  unfold dB
+  rw [hk]
+  exact (digit_canon c h).2
+
+set_option maxRecDepth 100000 in
+theorem digit_not_sep : ∀ c : UInt8, isDigit c = true →
+    c ≠ 0x2D ∧ c ≠ 0x3A ∧ c ≠ 0x2E ∧ c ≠ 0x2C ∧ c ≠ 0x5A ∧ c ≠ 0x2B ∧ c ≠ 0x54 := by
+  apply u8_forall
+  decide
+
+/-! ### takeDigits -/
+
+theorem takeDigits_cons (n : Nat) (c : UInt8) (s : Bytes) :
+    takeDigits (n + 1) (c :: s) =
+      if isDigit c then
+        match takeDigits n s with
+        | some (v, r) => some (digitVal c * 10 ^ n + v, r)
+        | none => none
+      else none := by
+  rw [takeDigits]
+  rfl
+
+theorem takeDigits_succ_some (n : Nat) (s : Bytes) (v : Nat) (r : Bytes) :
+    takeDigits (n + 1) s = some (v, r) ↔
+      ∃ c s' v', s = c :: s' ∧ isDigit c = true ∧ takeDigits n s' = some (v', r) ∧
+        v = digitVal c * 10 ^ n + v' := by
+  cases s with
+  | nil => simp [takeDigits]
+  | cons c s' =>
+    rw [takeDigits_cons]
+    constructor
+    · intro h
+      split at h
+      · rename_i hc
+        split at h
+        · rename_i v' r' htd
+          simp only [Option.some.injEq, Prod.mk.injEq] at h
+          obtain ⟨rfl, rfl⟩ := h
+          exact ⟨c, s', v', rfl, hc, htd, rfl⟩
+        · cases h
+      · cases h
+    · rintro ⟨c', s'', v', h1, hc, htd, rfl⟩
+      cases h1
+      simp [hc, htd]
+
+theorem takeDigits_zero_some (s : Bytes) (v : Nat) (r : Bytes) :
+    takeDigits 0 s = some (v, r) ↔ v = 0 ∧ r = s := by
+  unfold takeDigits
+  simp only [Option.some.injEq, Prod.mk.injEq]
+  constructor
+  · rintro ⟨rfl, rfl⟩; exact ⟨rfl, rfl⟩
+  · rintro ⟨rfl, rfl⟩; exact ⟨rfl, rfl⟩
+
+theorem takeDigits2_render (n : Nat) (rest : Bytes) (h : n ≤ 99) :
+    takeDigits 2 (natPad2 n ++ rest) = some (n, rest) := by
+  rw [natPad2_eq]
+  simp only [takeDigits, List.cons_append, List.nil_append, isDigit_dB, digitVal_dB, if_true]
+  simp only [Option.some.injEq, Prod.mk.injEq, and_true]
+  omega
+
+theorem takeDigits4_render (n : Nat) (rest : Bytes) (h : n ≤ 9999) :
+    takeDigits 4 (natPad4 n ++ rest) = some (n, rest) := by
+  rw [natPad4_eq]
+  simp only [takeDigits, List.cons_append, List.nil_append, isDigit_dB, digitVal_dB, if_true]
+  simp only [Option.some.injEq, Prod.mk.injEq, and_true]
+  omega
+
+theorem takeDigits2_sound (s : Bytes) (v : Nat) (r : Bytes) (h : takeDigits 2 s = some (v, r)) :
+    v ≤ 99 ∧ s = natPad2 v ++ r := by
+  rw [takeDigits_succ_some] at h
+  obtain ⟨a, s1, v1, rfl, ha, h, rfl⟩ := h
+  rw [takeDigits_succ_some] at h
+  obtain ⟨b, s2, v2, rfl, hb, h, rfl⟩ := h
+  rw [takeDigits_zero_some] at h
+  obtain ⟨rfl, rfl⟩ := h
+  have ha' := (digit_canon a ha).1
+  have hb' := (digit_canon b hb).1
+  refine ⟨by omega, ?_⟩
+  rw [natPad2_eq]
+  simp only [List.cons_append, List.nil_append]
+  rw [← digit_eq_dB a ha _ (by omega), ← digit_eq_dB b hb _ (by omega)]
+
+theorem takeDigits4_sound (s : Bytes) (v : Nat) (r : Bytes) (h : takeDigits 4 s = some (v, r)) :
+    v ≤ 9999 ∧ s = natPad4 v ++ r := by
+  rw [takeDigits_succ_some] at h
+  obtain ⟨a, s1, v1, rfl, ha, h, rfl⟩ := h
+  rw [takeDigits_succ_some] at h
+  obtain ⟨b, s2, v2, rfl, hb, h, rfl⟩ := h
+  rw [takeDigits_succ_some] at h
+  obtain ⟨c, s3, v3, rfl, hc, h, rfl⟩ := h
+  rw [takeDigits_succ_some] at h
+  obtain ⟨d, s4, v4, rfl, hd, h, rfl⟩ := h
+  rw [takeDigits_zero_some] at h
+  obtain ⟨rfl, rfl⟩ := h
+  have ha' := (digit_canon a ha).1
+  have hb' := (digit_canon b hb).1
+  have hc' := (digit_canon c hc).1
+  have hd' := (digit_canon d hd).1
+  refine ⟨by omega, ?_⟩
+  rw [natPad4_eq]
+  simp only [List.cons_append, List.nil_append]
+  rw [← digit_eq_dB a ha _ (by omega), ← digit_eq_dB b hb _ (by omega),
+    ← digit_eq_dB c hc _ (by omega), ← digit_eq_dB d hd _ (by omega)]
+
+/-! ### Separators -/
+
+/-- An optional separator as rendered. -/
+def optSep (b : Bool) (c : UInt8) : Bytes := if b then [c] else []
+
+theorem optSep_eq (b : Bool) (c : UInt8) : (if b then [c] else []) = optSep b c := rfl
+
+theorem skipOpt_render (c : UInt8) (b : Bool) (x : UInt8) (xs : Bytes) (hx : x ≠ c) :
+    skipOpt c (optSep b c ++ x :: xs) = x :: xs := by
+  cases b <;> simp [optSep, skipOpt, hx]
+
+theorem natPad2_head (n : Nat) (rest : Bytes) :
+    ∃ x xs, natPad2 n ++ rest = x :: xs ∧ isDigit x = true := by
+  rw [natPad2_eq]
+  exact ⟨_, _, rfl, isDigit_dB _⟩
+
+theorem takeDigits2_skip_render (c : UInt8) (hc : isDigit c = false) (b : Bool) (n : Nat)
+    (rest : Bytes) (h : n ≤ 99) :
+    takeDigits 2 (skipOpt c (optSep b c ++ (natPad2 n ++ rest))) = some (n, rest) := by
+  obtain ⟨x, xs, hx, hd⟩ := natPad2_head n rest
+  rw [hx, skipOpt_render, ← hx, takeDigits2_render n rest h]
+  rintro rfl
+  rw [hd] at hc
+  cases hc
+
+theorem skipOpt_decomp (c : UInt8) (s : Bytes) :
+    s = optSep (decide (s.head? = some c)) c ++ skipOpt c s := by
+  cases s with
+  | nil => simp [optSep, skipOpt]
+  | cons x xs =>
+    by_cases h : x = c
+    · subst h; simp [optSep, skipOpt]
+    · simp [optSep, skipOpt, h]
+
+theorem expect_some (c : UInt8) (s r : Bytes) (h : expect c s = some r) : s = c :: r := by
+  cases s with
+  | nil => simp [expect] at h
+  | cons x xs =>
+    simp only [expect] at h
+    split at h
+    · rename_i hx
+      subst hx
+      simp only [Option.some.injEq] at h
+      rw [h]
+    · cases h
+
+/-! ### Fraction digits -/
+
+theorem spanDigits_nondigit (r : Bytes) (hr : ∀ c, r.head? = some c → isDigit c = false) :
+    spanDigits r = ([], r) := by
+  cases r with
+  | nil => rfl
+  | cons c r' =>
+    have := hr c rfl
+    simp [spanDigits, this]
+
+theorem spanDigits_append (ds r : Bytes) (hds : ∀ c ∈ ds, isDigit c = true)
+    (hr : ∀ c, r.head? = some c → isDigit c = false) : spanDigits (ds ++ r) = (ds, r) := by
+  induction ds with
+  | nil => exact spanDigits_nondigit r hr
+  | cons d ds ih =>
+    have hd := hds d (List.mem_cons_self ..)
+    have := ih (fun c hc => hds c (List.mem_cons_of_mem _ hc))
+    simp [spanDigits, hd, this]
+
+theorem spanDigits_sound (s ds r : Bytes) (h : spanDigits s = (ds, r)) :
+    s = ds ++ r ∧ ∀ c ∈ ds, isDigit c = true := by
+  induction s generalizing ds r with
+  | nil =>
+    simp only [spanDigits, Prod.mk.injEq] at h
+    obtain ⟨rfl, rfl⟩ := h
+    simp
+  | cons c s ih =>
+    simp only [spanDigits] at h
+    split at h
+    · rename_i hc
+      obtain ⟨h1, h2⟩ := ih (spanDigits s).1 (spanDigits s).2 rfl
+      simp only [Prod.mk.injEq] at h
+      obtain ⟨rfl, rfl⟩ := h
+      refine ⟨?_, ?_⟩
+      · rw [List.cons_append, ← h1]
+      · intro x hx
+        rcases List.mem_cons.mp hx with rfl | hx
+        · exact hc
+        · exact h2 x hx
+    · simp only [Prod.mk.injEq] at h
+      obtain ⟨rfl, rfl⟩ := h
+      simp
+
+/-! ### Zone -/
+
+def zoneWf : ZoneText → Prop
+  | .z => True
+  | .offset _ hh mm _ => hh ≤ 23 ∧ mm ≤ 59
+
+theorem parseZone_sign (sg : UInt8) (rest : Bytes) (h : sg = 0x2B ∨ sg = 0x2D) :
+    parseZone (sg :: rest) =
+      match takeDigits 2 rest with
+      | some (hh, r1) =>
+        if hh ≤ ZONE_HOUR_MAX then
+          match takeDigits 2 (skipOpt 0x3A r1) with
+          | some (mm, r2) =>
+            if mm ≤ 59 ∧ r2 = [] then
+              some ((if sg = 0x2D then -1 else 1) * ((hh : Int) * 3600 + (mm : Int) * 60))
+            else none
+          | none => none
+        else none
+      | none => none := by
+  unfold parseZone
+  split
+  · rename_i heq
+    simp only [List.cons.injEq] at heq
+    obtain ⟨rfl, _⟩ := heq
+    rcases h with h | h <;> exact absurd h (by decide)
+  · rename_i sg' rest' heq
+    simp only [List.cons.injEq] at heq
+    obtain ⟨rfl, rfl⟩ := heq
+    rw [if_pos h]
+    rfl
+  · rename_i heq
+    cases heq
+
+theorem zone_render_eq (neg : Bool) (hh mm : Nat) (colon : Bool) :
+    (ZoneText.offset neg hh mm colon).render =
+      (if neg then 0x2D else 0x2B) :: (natPad2 hh ++ (optSep colon 0x3A ++ natPad2 mm)) := by
+  simp only [ZoneText.render, optSep, List.cons_append, List.append_assoc]
+
+theorem parseZone_render (zt : ZoneText) (h : zoneWf zt) :
+    parseZone zt.render = some zt.secs := by
+  cases zt with
+  | z => rfl
+  | offset neg hh mm colon =>
+    obtain ⟨h1, h2⟩ := h
+    rw [zone_render_eq, parseZone_sign _ _ (by cases neg <;> simp)]
+    rw [takeDigits2_render hh _ (by omega)]
+    have := takeDigits2_skip_render 0x3A (by decide) colon mm [] (by omega)
+    simp only [List.append_nil] at this
+    simp only [ZONE_HOUR_MAX, h1, if_true, this, h2, and_self, ZoneText.secs]
+    cases neg <;> simp
+
+theorem parseZone_sound (s : Bytes) (off : Int) (h : parseZone s = some off) :
+    ∃ zt : ZoneText, zoneWf zt ∧ s = zt.render ∧ off = zt.secs := by
+  cases s with
+  | nil => simp [parseZone] at h
+  | cons sg rest =>
+    by_cases hsg : sg = 0x2B ∨ sg = 0x2D
+    · rw [parseZone_sign sg rest hsg] at h
+      split at h
+      · rename_i hh r1 htd1
+        split at h
+        · rename_i hhh
+          split at h
+          · rename_i mm r2 htd2
+            split at h
+            · rename_i hmm
+              obtain ⟨hmm, rfl⟩ := hmm
+              simp only [Option.some.injEq] at h
+              obtain ⟨_, e1⟩ := takeDigits2_sound _ _ _ htd1
+              obtain ⟨_, e2⟩ := takeDigits2_sound _ _ _ htd2
+              have e3 := skipOpt_decomp 0x3A r1
+              refine ⟨.offset (decide (sg = 0x2D)) hh mm (decide (r1.head? = some 0x3A)),
+                ⟨hhh, hmm⟩, ?_, ?_⟩
+              · rw [zone_render_eq, ← List.append_nil (natPad2 mm), ← e2, ← e3, ← e1]
+                rcases hsg with rfl | rfl <;> simp
+              · rw [← h]
+                simp only [ZoneText.secs]
+                rcases hsg with rfl | rfl <;> simp
+            · cases h
+          · cases h
+        · cases h
+      · cases h
+    · unfold parseZone at h
+      split at h
+      · exact ⟨.z, trivial, by assumption, by simpa [ZoneText.secs] using h.symm⟩
+      · rename_i sg' rest' heq
+        simp only [List.cons.injEq] at heq
+        obtain ⟨rfl, rfl⟩ := heq
+        rw [if_neg hsg] at h
+        cases h
+      · cases h
+
+/-! ### Fraction -/
+
+def fracPart (s : Bytes) : Option (Bytes × Bytes) :=
+  match s with
+  | c :: s' =>
+    if c = 0x2E ∨ c = 0x2C then
+      let (ds, r) := spanDigits s'
+      if ds = [] then none else some (ds, r)
+    else some ([], s)
+  | [] => some ([], [])
+
+def fracRender : Option (Bool × Bytes) → Bytes
+  | none => []
+  | some (comma, ds) => (if comma then 0x2C else 0x2E) :: ds
+
+def fracWf : Option (Bool × Bytes) → Prop
+  | none => True
+  | some (_, ds) => ds ≠ [] ∧ ∀ c ∈ ds, isDigit c = true
+
+def fracDigits (fr : Option (Bool × Bytes)) : Bytes := (fr.map (·.2)).getD []
+
+theorem fracPart_render (fr : Option (Bool × Bytes)) (x : UInt8) (xs : Bytes)
+    (hx : x = 0x5A ∨ x = 0x2B ∨ x = 0x2D) (hwf : fracWf fr) :
+    fracPart (fracRender fr ++ x :: xs) = some (fracDigits fr, x :: xs) := by
+  have hx1 : ¬ (x = 0x2E ∨ x = 0x2C) := by
+    rcases hx with rfl | rfl | rfl <;> decide
+  have hx2 : isDigit x = false := by
+    rcases hx with rfl | rfl | rfl <;> decide
+  cases fr with
+  | none =>
+    simp only [fracRender, List.nil_append, fracPart, if_neg hx1, fracDigits, Option.map_none,
+      Option.getD_none]
+  | some p =>
+    obtain ⟨comma, ds⟩ := p
+    obtain ⟨hne, hds⟩ := hwf
+    have hsp : spanDigits (ds ++ x :: xs) = (ds, x :: xs) :=
+      spanDigits_append ds (x :: xs) hds (by
+        intro c hc
+        simp only [List.head?_cons, Option.some.injEq] at hc
+        subst hc
+        exact hx2)
+    have hsep : (if comma = true then (0x2C : UInt8) else 0x2E) = 0x2E ∨
+        (if comma = true then (0x2C : UInt8) else 0x2E) = 0x2C := by
+      cases comma <;> simp
+    simp only [fracRender, List.cons_append, fracPart, if_pos hsep, hsp, if_neg hne, fracDigits,
+      Option.map_some, Option.getD_some]
+
+theorem fracPart_sound (s frac r : Bytes) (h : fracPart s = some (frac, r)) :
+    ∃ fr, fracWf fr ∧ s = fracRender fr ++ r ∧ frac = fracDigits fr := by
+  cases s with
+  | nil =>
+    simp only [fracPart, Option.some.injEq, Prod.mk.injEq] at h
+    obtain ⟨rfl, rfl⟩ := h
+    exact ⟨none, trivial, rfl, rfl⟩
+  | cons c s' =>
+    simp only [fracPart] at h
+    split at h
+    · rename_i hc
+      split at h
+      · cases h
+      · rename_i hne
+        simp only [Option.some.injEq, Prod.mk.injEq] at h
+        obtain ⟨rfl, rfl⟩ := h
+        obtain ⟨e, hds⟩ := spanDigits_sound s' _ _ rfl
+        refine ⟨some (decide (c = 0x2C), (spanDigits s').1), ⟨hne, hds⟩, ?_, rfl⟩
+        simp only [fracRender, List.cons_append, ← e]
+        rcases hc with rfl | rfl <;> simp
+    · simp only [Option.some.injEq, Prod.mk.injEq] at h
+      obtain ⟨rfl, rfl⟩ := h
+      exact ⟨none, trivial, rfl, rfl⟩
+
+theorem matchIso_eq (s : Bytes) : matchIso s =
+    match takeDigits 4 s with
+    | none => none
+    | some (year, s) =>
+    match takeDigits 2 (skipOpt 0x2D s) with
+    | none => none
+    | some (month, s) =>
+    if month < 1 ∨ month > 12 then none else
+    match takeDigits 2 (skipOpt 0x2D s) with
+    | none => none
+    | some (day, s) =>
+    if day < 1 ∨ day > 31 then none else
+    match expect 0x54 s with
+    | none => none
+    | some s =>
+    match takeDigits 2 s with
+    | none => none
+    | some (hour, s) =>
+    if hour > 23 then none else
+    match takeDigits 2 (skipOpt 0x3A s) with
+    | none => none
+    | some (minute, s) =>
+    if minute > 59 then none else
+    match takeDigits 2 (skipOpt 0x3A s) with
+    | none => none
+    | some (second, s) =>
+    if second > 61 then none else
+    match fracPart s with
+    | none => none
+    | some (frac, s) =>
+    match parseZone s with
+    | none => none
+    | some off => some { year, month, day, hour, minute, second, frac, offsetSecs := off } := by
+  rfl
+
+/-! ### Assembly -/
+
+theorem zone_render_head (zt : ZoneText) :
+    ∃ x xs, zt.render = x :: xs ∧ (x = 0x5A ∨ x = 0x2B ∨ x = 0x2D) := by
+  cases zt with
+  | z => exact ⟨_, _, rfl, Or.inl rfl⟩
+  | offset neg hh mm colon =>
+    rw [zone_render_eq]
+    cases neg
+    · exact ⟨_, _, rfl, Or.inr (Or.inl rfl)⟩
+    · exact ⟨_, _, rfl, Or.inr (Or.inr rfl)⟩
+
+theorem render_eq (t : IsoText) : t.render =
+    natPad4 t.year ++ (optSep t.dash1 0x2D ++ (natPad2 t.month ++ (optSep t.dash2 0x2D ++
+      (natPad2 t.day ++ (0x54 :: (natPad2 t.hour ++ (optSep t.colon1 0x3A ++ (natPad2 t.minute ++
+        (optSep t.colon2 0x3A ++ (natPad2 t.second ++ (fracRender t.frac ++ t.zone.render))))))))))) := by
+  unfold IsoText.render
+  simp only [List.append_assoc, List.cons_append, List.nil_append, optSep_eq]
+  rfl
+
+theorem wf_frac (t : IsoText) (h : t.wf) : fracWf t.frac := by
+  have := h.2.2.2.2.2.2.2.2.1
+  cases hf : t.frac with
+  | none => trivial
+  | some p =>
+    obtain ⟨c, ds⟩ := p
+    rw [hf] at this
+    exact this
+
+theorem wf_zone (t : IsoText) (h : t.wf) : zoneWf t.zone := by
+  have := h.2.2.2.2.2.2.2.2.2
+  cases hz : t.zone with
+  | z => trivial
+  | offset neg hh mm colon =>
+    rw [hz] at this
+    exact this
+
+theorem wf_mk (t : IsoText) (hy : t.year ≤ 9999) (hm1 : 1 ≤ t.month) (hm2 : t.month ≤ 12)
+    (hd1 : 1 ≤ t.day) (hd2 : t.day ≤ 31) (hh : t.hour ≤ 23) (hmi : t.minute ≤ 59)
+    (hs : t.second ≤ 61) (hfr : fracWf t.frac) (hz : zoneWf t.zone) : t.wf := by
+  refine ⟨hy, hm1, hm2, hd1, hd2, hh, hmi, hs, ?_, ?_⟩
+  · cases hf : t.frac with
+    | none => trivial
+    | some p =>
+      obtain ⟨c, ds⟩ := p
+      rw [hf] at hfr
+      exact hfr
+  · cases hzt : t.zone with
+    | z => trivial
+    | offset neg hh mm colon =>
+      rw [hzt] at hz
+      exact hz
+
+end IsoMatch
+
+open IsoMatch
+
+theorem matchIso_render (t : IsoText) (h : t.wf) : matchIso t.render = some t.toFields := by
+  have hfr := wf_frac t h
+  have hz := wf_zone t h
+  obtain ⟨hy, hm1, hm2, hd1, hd2, hh, hmi, hs, _, _⟩ := h
+  obtain ⟨x, xs, hx, hx'⟩ := zone_render_head t.zone
+  rw [matchIso_eq, render_eq]
+  rw [takeDigits4_render _ _ hy]
+  simp only []
+  rw [takeDigits2_skip_render 0x2D (by decide) _ _ _ (by omega)]
+  simp only []
+  rw [if_neg (by omega)]
+  rw [takeDigits2_skip_render 0x2D (by decide) _ _ _ (by omega)]
+  simp only []
+  rw [if_neg (by omega)]
+  simp only [expect, if_true]
+  rw [takeDigits2_render _ _ (by omega)]
+  simp only []
+  rw [if_neg (by omega)]
+  rw [takeDigits2_skip_render 0x3A (by decide) _ _ _ (by omega)]
+  simp only []
+  rw [if_neg (by omega)]
+  rw [takeDigits2_skip_render 0x3A (by decide) _ _ _ (by omega)]
+  simp only []
+  rw [if_neg (by omega)]
+  rw [hx, fracPart_render _ _ _ hx' hfr]
+  simp only []
+  rw [← hx, parseZone_render _ hz]
+  rfl
+
+theorem matchIso_sound (s : Bytes) (f : IsoFields) (h : matchIso s = some f) :
+    ∃ t : IsoText, t.wf ∧ s = t.render ∧ f = t.toFields := by
+  rw [matchIso_eq] at h
+  split at h
+  · cases h
+  rename_i year s1 h1
+  split at h
+  · cases h
+  rename_i month s2 h2
+  split at h
+  · cases h
+  rename_i hmonth
+  split at h
+  · cases h
+  rename_i day s3 h3
+  split at h
+  · cases h
+  rename_i hday
+  split at h
+  · cases h
+  rename_i s4 h4
+  split at h
+  · cases h
+  rename_i hour s5 h5
+  split at h
+  · cases h
+  rename_i hhour
+  split at h
+  · cases h
+  rename_i minute s6 h6
+  split at h
+  · cases h
+  rename_i hminute
+  split at h
+  · cases h
+  rename_i second s7 h7
+  split at h
+  · cases h
+  rename_i hsecond
+  split at h
+  · cases h
+  rename_i frac s8 h8
+  split at h
+  · cases h
+  rename_i off h9
+  simp only [Option.some.injEq] at h
+  subst h
+  obtain ⟨by1, e1⟩ := takeDigits4_sound _ _ _ h1
+  obtain ⟨_, e2⟩ := takeDigits2_sound _ _ _ h2
+  obtain ⟨_, e3⟩ := takeDigits2_sound _ _ _ h3
+  have e4 := expect_some _ _ _ h4
+  obtain ⟨_, e5⟩ := takeDigits2_sound _ _ _ h5
+  obtain ⟨_, e6⟩ := takeDigits2_sound _ _ _ h6
+  obtain ⟨_, e7⟩ := takeDigits2_sound _ _ _ h7
+  have d1 := skipOpt_decomp 0x2D s1
+  have d2 := skipOpt_decomp 0x2D s2
+  have d5 := skipOpt_decomp 0x3A s5
+  have d6 := skipOpt_decomp 0x3A s6
+  obtain ⟨fr, hfr, e8, rfl⟩ := fracPart_sound _ _ _ h8
+  obtain ⟨zt, hzt, e9, rfl⟩ := parseZone_sound _ _ h9
+  refine ⟨{ year, month, day, hour, minute, second,
+            dash1 := decide (s1.head? = some 0x2D), dash2 := decide (s2.head? = some 0x2D),
+            colon1 := decide (s5.head? = some 0x3A), colon2 := decide (s6.head? = some 0x3A),
+            frac := fr, zone := zt }, ?_, ?_, rfl⟩
+  · exact wf_mk _ by1 (by simp only []; omega) (by simp only []; omega) (by simp only []; omega)
+      (by simp only []; omega) (by simp only []; omega) (by simp only []; omega)
+      (by simp only []; omega) hfr hzt
+  · rw [render_eq]
+    simp only []
+    rw [← e9, ← e8, ← e7, ← d6, ← e6, ← d5, ← e5, ← e4, ← e3, ← d2, ← e2, ← d1, ← e1]
+
+theorem fieldsValid_iff (f : IsoFields) :
+    fieldsValid f = true ↔ 1 ≤ f.month ∧ f.month ≤ 12 ∧ 1 ≤ f.day ∧
+      (f.day : Int) ≤ daysInMonth f.year f.month ∧ f.hour < 24 ∧ f.minute < 60 ∧ f.second < 60 := by
+  simp only [fieldsValid, Bool.and_eq_true, decide_eq_true_eq, and_assoc]
+
+theorem fieldsValid_toFields (t : IsoText) (h : t.wf) :
+    fieldsValid t.toFields = true ↔ t.civilValid := by
+  obtain ⟨hy, hm1, hm2, hd1, hd2, hh, hmi, hs, _, _⟩ := h
+  rw [fieldsValid_iff]
+  show 1 ≤ t.month ∧ t.month ≤ 12 ∧ 1 ≤ t.day ∧
+      (t.day : Int) ≤ daysInMonth t.year t.month ∧ t.hour < 24 ∧ t.minute < 60 ∧ t.second < 60 ↔
+    (t.day : Int) ≤ daysInMonth t.year t.month ∧ t.second ≤ 59
+  constructor
+  · rintro ⟨_, _, _, h1, _, _, h2⟩
+    exact ⟨h1, by omega⟩
+  · rintro ⟨h1, h2⟩
+    exact ⟨hm1, hm2, hd1, h1, by omega, by omega, by omega⟩
+
+theorem fieldsInstant_toFields (t : IsoText) : fieldsInstant t.toFields = t.value := rfl
+
+theorem parseIso_render_valid (t : IsoText) (h : t.wf) (c : t.civilValid) :
+    parseIso t.render = some t.value := by
+  unfold parseIso
+  rw [matchIso_render t h]
+  simp only []
+  rw [if_pos ((fieldsValid_toFields t h).mpr c), fieldsInstant_toFields]
+
+theorem parseIso_render_invalid (t : IsoText) (h : t.wf) (c : ¬ t.civilValid) :
+    parseIso t.render = none := by
+  unfold parseIso
+  rw [matchIso_render t h]
+  simp only []
+  rw [if_neg (fun hv => c ((fieldsValid_toFields t h).mp hv))]
+
+theorem parseIso_iff (s : Bytes) (v : Int) :
+    parseIso s = some v ↔ ∃ t : IsoText, t.wf ∧ t.civilValid ∧ s = t.render ∧ v = t.value := by
+  constructor
+  · intro h
+    unfold parseIso at h
+    split at h
+    · cases h
+    · rename_i f hf
+      split at h
+      · rename_i hv
+        simp only [Option.some.injEq] at h
+        obtain ⟨t, hwf, rfl, rfl⟩ := matchIso_sound s f hf
+        exact ⟨t, hwf, (fieldsValid_toFields t hwf).mp hv, rfl, by rw [← h, fieldsInstant_toFields]⟩
+      · cases h
+  · rintro ⟨t, hwf, c, rfl, rfl⟩
+    rw [parseIso_render_valid t hwf c]
+
+theorem parseIso_rejects (t : IsoText) (h : t.wf) (hbad : ¬ t.civilValid) :
+    parseIso t.render = none := by
+  exact parseIso_render_invalid t h hbad
+
+theorem parseIso_text_independent (t t' : IsoText) (h : t.wf) (h' : t'.wf) (c : t.civilValid)
+    (c' : t'.civilValid) (hv : t.value = t'.value) : parseIso t.render = parseIso t'.render := by
+  rw [parseIso_render_valid t h c, parseIso_render_valid t' h' c', hv]
+
+theorem sts_timestamp_line (a : Authenticator) (sts : Bytes) (h : stringToSign a = .ok sts) :
+    ∃ scope, sts = AWS4_HMAC_SHA256 ++ [0x0A] ++ compactUtc a.timestamp ++ [0x0A] ++ scope ++ [0x0A]
+      ++ hexLower a.creqSha := by
+  unfold stringToSign at h
+  split at h
+  · cases h
+  · rename_i scope _
+    simp only [Outcome.ok.injEq] at h
+    exact ⟨scope, h.symm⟩
+
+theorem bad_timestamp_error (H : Bytes → Bytes) (c : CanonReq) (ap : AuthParams)
+    (h : parseIso ap.timestampStr = none) :
+    authenticatorOf H c ap = .err .IncompleteSignature := by
+  unfold authenticatorOf
+  rw [h]
+
 end SigV4
+
+#print axioms SigV4.matchIso_render
+#print axioms SigV4.matchIso_sound
+#print axioms SigV4.parseIso_iff
+#print axioms SigV4.parseIso_rejects
+#print axioms SigV4.parseIso_text_independent
+#print axioms SigV4.sts_timestamp_line
+#print axioms SigV4.bad_timestamp_error
